@@ -23,6 +23,10 @@ func TestC14Race(t *testing.T) {
 			t.Skip("setup failed")
 		}
 		run := w.runConcurrent(cc.Progs, cc.YieldSeed, cc.ViaRPC, 30*time.Second, cc.Pause)
+		if run.Slow {
+			St.Class("call_too_slow_for_the_harness_not_judged")
+			t.Skip("harness too slow")
+		}
 		if run.Hung {
 			St.Class("run_hung_not_judged")
 			t.Skip("the run did not terminate (C06's subject)")
